@@ -21,5 +21,5 @@ void sync(Substrate& s, unsigned W, unsigned R, bool b, bool a, const std::strin
 }
 void resetMirrors(Substrate& s) { s.reset_mirrorField<Reduce_add_f_sum>(); }
 } // namespace
-const c18::FieldVT c18::vt_f_sum = {"f_sum", "GALOIS_SYNC_STRUCTURE_REDUCE_ADD(double)", R_ADD, K_F64, 1, true,
+const c18::FieldVT c18::vt_f_sum = {"f_sum", "GALOIS_SYNC_STRUCTURE_REDUCE_ADD(double)", R_ADD, K_F64, 1, true, false,
                                     store, load, write, &bitset_f_sum, sync, resetMirrors};
